@@ -124,6 +124,22 @@ func toMapData(data any) map[string]any {
 	return make(map[string]any)
 }
 
+// mergeFrontMatter returns data overlaid with frontMatter. The caller's map is
+// never written to: when there is front-matter to merge, a copy is returned.
+func mergeFrontMatter(data, frontMatter map[string]any) map[string]any {
+	if len(frontMatter) == 0 {
+		return data
+	}
+	merged := make(map[string]any, len(data)+len(frontMatter))
+	for k, v := range data {
+		merged[k] = v
+	}
+	for k, v := range frontMatter {
+		merged[k] = v
+	}
+	return merged
+}
+
 // Render processes a full-page template file and writes the output to w.
 // Front-matter data in the template is authoritative and overrides passed data.
 // Render is safe to call concurrently from multiple goroutines.
@@ -134,10 +150,7 @@ func (v *Vue) Render(w io.Writer, filename string, data any) error {
 	}
 
 	// Merge front-matter data into the provided data (front-matter is authoritative)
-	dataMap := toMapData(data)
-	for k, v := range frontMatter {
-		dataMap[k] = v
-	}
+	dataMap := mergeFrontMatter(toMapData(data), frontMatter)
 
 	// Create context for v-once attribute tracking
 	vueCtx := NewVueContext(filename, &VueContextOptions{
@@ -224,10 +237,7 @@ func (v *Vue) RenderFragment(w io.Writer, filename string, data any) error {
 	}
 
 	// Merge front-matter data into the provided data (front-matter is authoritative)
-	dataMap := toMapData(data)
-	for k, v := range frontMatter {
-		dataMap[k] = v
-	}
+	dataMap := mergeFrontMatter(toMapData(data), frontMatter)
 
 	// Create context for v-once attribute tracking
 	vueCtx := NewVueContext(filename, &VueContextOptions{
